@@ -257,7 +257,16 @@ def evaluate(prop, tier="quick", repo=None, scratch=False, only_rule=None):
     for rid, fn, configs in mod.RULES:
         if only_rule and rid != only_rule:
             continue
-        cfgs = configs.get(tier, configs.get("quick", ["default"])) if isinstance(configs, dict) else configs
+        cfgs = configs.get(tier, configs.get("quick", ["default"])) if isinstance(configs, dict) else list(configs)
+        if tier == "thorough" and not isinstance(configs, dict):
+            extra = getattr(mod, "META", {}).get("thorough_extra", [])
+            tls_only = set(cfgs) <= {"tls", "mocks", "aws"}
+            for c in extra:
+                if c in cfgs:
+                    continue
+                if tls_only and c not in ("tls", "mocks", "aws"):
+                    continue
+                cfgs.append(c)
         for cfg in cfgs:
             ctx.cur_rule = rid
             before = len(ctx.obs)
@@ -308,7 +317,7 @@ def run_property(prop, tier="quick", replay=None, quiet=False):
 
     # ---- thorough extras
     extra = {}
-    if tier == "thorough":
+    if tier == "thorough" and not os.environ.get("HDLINT_NO_SELFTEST"):
         import selftest
         try:
             extra = {"selftest": selftest.run(prop)}
